@@ -56,6 +56,8 @@ def judge_var(v, name, bsval, truth, typ, ctx, counts):
     if mism:
         path, cls, det = mism[0]
         top = typ['type']['k']
+        if cls != 'enum-undecoded' and has_128(typ['type']) and valcmp.contains_undecoded_enum(bsval):
+            cls = 'enum-undecoded'
         if cls == 'enum-undecoded':
             wide = has_128(typ['type'])
             cls = 'enum-undecoded-128-bit-discriminant' if wide else 'enum-undecoded'
